@@ -45,8 +45,13 @@ PipelineOK(r) ==
 
 RowOK(r) ==
   /\ Functional(r.H.g)
-  /\ CASE r.op = "h2c" -> PipelineOK(r) /\ r.u = H2F(r.H, r.msg, r.dst, 2, r.g)
-       [] r.op = "h2f" -> r.u = H2F(r.H, r.msg, r.dst, r.count, r.g)
+  \* the expansion must be defined (every prescribed digest present in the recorded graph) BEFORE the elements are
+  \* compared: NoHash is not comparable with a tuple of field elements
+  /\ CASE r.op = "h2c" -> /\ PipelineOK(r)
+                          /\ Expand(r.H, r.msg, r.dst, 2 * r.g * 64) # NoHash
+                          /\ r.u = H2F(r.H, r.msg, r.dst, 2, r.g)
+       [] r.op = "h2f" -> /\ Expand(r.H, r.msg, r.dst, r.count * r.g * 64) # NoHash
+                          /\ r.u = H2F(r.H, r.msg, r.dst, r.count, r.g)
        [] OTHER -> FALSE
 
 Init == i = 0
